@@ -18,6 +18,7 @@ MODULES = [
     "myst_parser.warnings_",
     "myst_parser.parsers.options",
     "myst_parser.parsers.directives",
+    "myst_parser.inventory",
     "myst_parser.parsers.parse_html",
     "myst_parser.mdit_to_docutils.html_to_nodes",
     "myst_parser.mocking",
